@@ -15,6 +15,10 @@ What is emitted (and nothing else):
   * functions that WRITE a byte buffer through pointers (memory mode with stores, class TrMemW; vocabulary
     Base/MemW.v) - written to coq/theories/Gen/GeneratedMemW.v (imported by Rtr/FooterTie.v), again a separate file
     so that GeneratedMem.v does not change.  `c2v.py --only-memw [path]` writes only that file.
+  * the control skeleton of the RTR client state machine (rtr_purge_outdated_records, rtr_wait_for_sync, one iteration
+    of the loop of rtr_fsm_start) as effect trees over the calls of functions that are not translated (effect mode,
+    class TrEff; vocabulary Base/Eff.v) - written to coq/theories/Gen/GeneratedFsm.v (imported by Rtr/FsmTie.v).
+    `c2v.py --only-fsm [path]` writes only that file.
 A construct outside the subset makes the function come out as `<f>_untranslated`, which breaks
 the Coq files that mention `<f>_gen` - a broken tie, handled by the checks.
 """
@@ -1586,6 +1590,580 @@ def generate_memw():
 
 
 # ---------------------------------------------------------------------------
+# effect mode (Base/Eff.v): the control skeleton of functions that CALL functions which are not translated
+# ---------------------------------------------------------------------------
+# Target: the effect tree `eff` of Base/Eff.v,
+#     ERet r s | ECall f args s k | EUndef
+# for functions of one `struct rtr_socket *` parameter.  The socket's integer fields are a string-keyed `store`
+# (Base/CSem.v), read with sget and assigned with sset exactly as in `Tr`; integer expressions and conditions are
+# translated by `Tr.expr` / `Tr.cond` (wrap-around by type, guards for signed overflow, shifts, division), a failing
+# guard is EUndef.
+#   * A call of a function that is not translated becomes
+#         ECall "<name>" [scalar arguments] <socket store at the call> (fun res__ <socket store after the call> => ...)
+#     - the socket pointer itself is not in the argument list: it is the store slot (the callee may read and write
+#       every field through it);
+#     - a pointer FIELD of the socket handed to the callee (rtr_socket->tr_socket, ->pfx_table, ->spki_table) is an
+#       opaque handle the callee could also reach through the socket: omitted;
+#     - `&local` (a scalar local): an out-parameter - its new value is an extra entry of res__; its value before the call
+#       is also an argument, except for the (callee, position) pairs of EFF_OUT_ONLY (written, never read);
+#     - a local ARRAY (char pdu[RTR_MAX_PDU_LEN]) handed to the callee is a memory object of its own (`m_<name> :
+#       list Z`, as in memory mode); it must still be unwritten at the call (then its content need not be handed
+#       over), and its bytes after the call are THE REST of res__ behind the scalar results;
+#     - res__ = [return value (absent for a void callee); out-parameters in argument order; buffer bytes...].
+#       The values are of the callee's C types (no conversion happens in C either): supplying in-range values is the
+#       interpretation's duty.
+#   * A call of a function of GeneratedMem.v on such an array (rtr_get_pdu_type(pdu)) is the memory-mode function
+#     applied to the object at offset 0: `eopt (rtr_get_pdu_type_gen m_pdu (Some 0)) (fun v => ...)` - a load outside
+#     the bytes the callee delivered is EUndef.
+#   * A call of a function translated in the same file (rtr_purge_outdated_records, rtr_wait_for_sync) is inlined as
+#     a sub-tree:  ebind (<f>_gen <store>) (fun r <store> => ...).
+#   * lrtr_dbg / printf / pthread_setcancelstate are no-ops; their arguments are not evaluated.
+#   * One call per full expression, never below the right operand of && / || or a branch of ?: (C leaves the order of
+#     two calls open); no read of a socket field in the same expression outside the call's arguments (unsequenced with
+#     the callee's writes).  Otherwise: untranslatable.
+#   * `if`: when both branches are straight-line assignments without guards, the branches are joined on the assigned
+#     variables (let v := if c then .. else ..); otherwise the code after the `if` is emitted once per branch.
+#   * `while (1)`: only as the subject of a "loop" entry of FSM_LEAFS, which emits
+#         <f>__prologue_gen : the statements before the loop;   ERet 0 s = the function returned, ERet 1 s = the loop is entered
+#         <f>__iter_gen     : ONE iteration of the loop body;    ERet 0 s = go round again (end of the body or `continue`),
+#                                                                ERet 1 s = `break`, ERet 2 s = `return`
+#     Locals of the prologue must not be used by the body (other than in the no-op calls).
+EFF_NOOPS = {"lrtr_dbg", "printf", "pthread_setcancelstate"}
+EFF_OUT_ONLY = {("lrtr_get_monotonic_time", 0)}
+FSM_LEAFS = [
+    ("rtrlib/rtr/rtr.c", "rtr_purge_outdated_records", "fn"),
+    ("rtrlib/rtr/packets.c", "rtr_wait_for_sync", "fn"),
+    ("rtrlib/rtr/rtr.c", "rtr_fsm_start", "loop"),
+]
+FSM_OUT = os.path.join(vlib.THEORIES, "Gen", "GeneratedFsm.v")
+
+
+def strip_casts(n, kinds=("ImplicitCastExpr", "ParenExpr")):
+    while n.get("kind") in kinds:
+        n = inner(n)[0]
+    return n
+
+
+def is_null_ptr(n):
+    """a null pointer constant: (void *)0 / NULL"""
+    while n.get("kind") in ("ImplicitCastExpr", "ParenExpr", "CStyleCastExpr"):
+        if n.get("castKind") == "NullToPointer":
+            return True
+        n = inner(n)[0]
+    return False
+
+
+class TrEff(Tr):
+    def __init__(self, fn, eff_known, mem_known, enums, sizes):
+        Tr.__init__(self, fn, {}, enums, sizes, {})
+        self.eff_known = eff_known     # functions translated in this file: name -> "void" | "Z"
+        self.mem_known = mem_known     # memory-mode functions (GeneratedMem.v): name -> (kinds, "mem")
+        self.sock = None
+        self.arrays = {}               # local array -> [object variable, written?]
+        self.call_val = {}             # id(CallExpr) -> Coq variable holding its value
+        self.mode = "fn"               # "fn" | "prologue" | "iter"
+        self.ncall = 0
+
+    # -- expressions -----------------------------------------------------------
+    def expr(self, n):
+        k = n.get("kind")
+        if k == "CallExpr":
+            if id(n) in self.call_val:
+                return [], self.call_val[id(n)]
+            raise Untranslatable("call to %s in an unsupported position" % self.callee(n))
+        if k == "UnaryExprOrTypeTraitExpr" and n.get("name") == "sizeof":
+            at = (n.get("argType") or {}).get("qualType")
+            if at is None and inner(n):
+                at = (inner(n)[0].get("type") or {}).get("qualType")
+            m = re.fullmatch(r"(?:unsigned |signed )?char\s*\[(\w+)\]", at or "")
+            if m:
+                if m.group(1).isdigit():
+                    return [], "(%s)" % m.group(1)
+                if ("M", m.group(1)) in self.sizes:
+                    return [], "c_" + m.group(1)
+                raise Untranslatable("sizeof " + at)
+        if k in ("ImplicitCastExpr", "CStyleCastExpr") and n.get("castKind") in ("LValueToRValue", "NoOp") \
+                and is_ptr_type((n.get("type") or {}).get("qualType", "")):
+            raise Untranslatable("pointer value in an integer expression")
+        return Tr.expr(self, n)
+
+    def eguarded(self, guards, body):
+        for g in reversed(guards):
+            body = "eguard %s (%s)" % (g, body)
+        return body
+
+    # -- calls -------------------------------------------------------------------
+    def calls_in(self, n, under=False, acc=None):
+        """CallExpr nodes of the expression n that have an effect or need binding: [(node, conditional?)]"""
+        if acc is None:
+            acc = []
+        k = n.get("kind")
+        if k == "CallExpr":
+            name = self.callee(n)
+            if name in EFF_NOOPS:
+                return acc
+            acc.append((n, under))
+            for a in inner(n)[1:]:
+                if self.calls_in(a, under, []):
+                    raise Untranslatable("call nested in the arguments of " + str(name))
+            return acc
+        ins = inner(n)
+        if k == "BinaryOperator" and n.get("opcode") in ("&&", "||"):
+            self.calls_in(ins[0], under, acc)
+            self.calls_in(ins[1], True, acc)
+            return acc
+        if k == "ConditionalOperator":
+            self.calls_in(ins[0], under, acc)
+            self.calls_in(ins[1], True, acc)
+            self.calls_in(ins[2], True, acc)
+            return acc
+        if k in ("StmtExpr", "CompoundStmt", "IfStmt", "WhileStmt", "ForStmt", "DoStmt"):
+            raise Untranslatable("statement inside an expression")
+        for c in ins:
+            self.calls_in(c, under, acc)
+        return acc
+
+    def reads_sock(self, n, skip):
+        """does expression n read a field of the socket outside the sub-tree `skip`?"""
+        if n is skip:
+            return False
+        if n.get("kind") == "MemberExpr":
+            try:
+                b, _ = self.lvalue_key(n)
+                if b == self.sock:
+                    return True
+            except Untranslatable:
+                return True
+        return any(self.reads_sock(c, skip) for c in inner(n))
+
+    def with_calls(self, nodes, build):
+        """emit the calls contained in the expressions `nodes` (at most one with an effect), then build()"""
+        found = []
+        for n in nodes:
+            found += self.calls_in(n)
+        if not found:
+            return build()
+        effectful = [c for c, _ in found if self.callee(c) not in self.mem_known]
+        if len(effectful) > 1:
+            raise Untranslatable("two calls in one expression (%s): the order of evaluation is not fixed"
+                                 % ", ".join(str(self.callee(c)) for c in effectful))
+        for c, under in found:
+            if under:
+                raise Untranslatable("call to %s evaluated conditionally inside an expression" % self.callee(c))
+        if effectful:
+            for n in nodes:
+                if self.reads_sock(n, effectful[0]):
+                    raise Untranslatable("socket field read in the same expression as the call to %s" % self.callee(effectful[0]))
+
+        def chain(i):
+            if i == len(found):
+                return build()
+            c = found[i][0]
+            var = "c__%d" % self.ncall
+            self.ncall += 1
+            self.call_val[id(c)] = var
+            return self.emit_call(c, var, lambda: chain(i + 1))
+        return chain(0)
+
+    def emit_call(self, c, var, nxt):
+        """the call c; its value (if it has one) is bound to the Coq variable var (None: value unused)"""
+        name = self.callee(c)
+        if name is None:
+            raise Untranslatable("call through a pointer")
+        args = inner(c)[1:]
+        sv = gname(self.sock)
+        rq = (c.get("type") or {}).get("qualType", "")
+        is_void = rq == "void"
+        # memory-mode function on a local array
+        if name in self.mem_known:
+            kinds = self.mem_known[name][0]
+            ts, g = [], []
+            obj = None
+            for a, kd in zip(args, kinds):
+                if kd == "ptr":
+                    aa = strip_casts(a, ("ImplicitCastExpr", "ParenExpr", "CStyleCastExpr"))
+                    if aa.get("kind") == "DeclRefExpr" and aa["referencedDecl"]["name"] in self.arrays:
+                        o = self.arrays[aa["referencedDecl"]["name"]][0]
+                        if obj not in (None, o):
+                            raise Untranslatable("two memory objects handed to " + name)
+                        obj = o
+                        ts.append("(Some 0)")
+                    else:
+                        raise Untranslatable("pointer argument of %s is not a local array" % name)
+                else:
+                    ga, ta = self.expr(a)
+                    g += ga
+                    ts.append(ta)
+            if obj is None:
+                raise Untranslatable("no memory object for " + name)
+            call = "(%s_gen %s %s)" % (name, obj, " ".join(ts))
+            return self.eguarded(g, "eopt %s (fun %s =>\n%s)" % (call, var or "_", nxt()))
+        # a function translated in this file
+        if name in self.eff_known:
+            a0 = strip_casts(args[0]) if len(args) == 1 else {}
+            if not (a0.get("kind") == "DeclRefExpr" and a0["referencedDecl"]["name"] == self.sock):
+                raise Untranslatable("call to %s with other arguments than the socket" % name)
+            return "ebind (%s_gen %s) (fun %s %s =>\n%s)" % (name, sv, var or "_", sv, nxt())
+        # a function that is not translated
+        g, ts, outs, buf = [], [], [], None
+        for i, a in enumerate(args):
+            aa = strip_casts(a, ("ImplicitCastExpr", "ParenExpr", "CStyleCastExpr"))
+            q = (a.get("type") or {}).get("qualType", "")
+            if aa.get("kind") == "DeclRefExpr" and aa["referencedDecl"]["name"] == self.sock:
+                continue
+            if aa.get("kind") == "MemberExpr" and is_ptr_type((aa.get("type") or {}).get("qualType", "")):
+                b, _ = self.lvalue_key(aa)
+                if b == self.sock:
+                    continue                     # opaque handle reachable through the socket
+                raise Untranslatable("pointer argument of " + name)
+            if aa.get("kind") == "UnaryOperator" and aa.get("opcode") == "&":
+                tgt = strip_casts(inner(aa)[0])
+                if tgt.get("kind") == "DeclRefExpr" and tgt["referencedDecl"]["name"] in self.locals \
+                        and tgt["referencedDecl"]["name"] not in self.arrays and tgt["referencedDecl"]["name"] != self.sock:
+                    nm = tgt["referencedDecl"]["name"]
+                    if (name, i) not in EFF_OUT_ONLY:
+                        ts.append(gname(nm))
+                    outs.append(nm)
+                    continue
+                raise Untranslatable("address-of argument of " + name)
+            if aa.get("kind") == "DeclRefExpr" and aa["referencedDecl"]["name"] in self.arrays:
+                ent = self.arrays[aa["referencedDecl"]["name"]]
+                if ent[1]:
+                    raise Untranslatable("array %s handed to %s after it was written" % (aa["referencedDecl"]["name"], name))
+                if buf is not None:
+                    raise Untranslatable("two arrays handed to " + name)
+                buf = ent
+                continue
+            if is_null_ptr(a):
+                ts.append("(0)")
+                continue
+            if is_ptr_type(q):
+                raise Untranslatable("pointer argument of " + name)
+            ga, ta = self.expr(a)
+            g += ga
+            ts.append(ta)
+        lets, pos = [], 0
+        if not is_void:
+            if var:
+                lets.append("let %s := nth %d%%nat res__ 0 in" % (var, pos))
+            pos += 1
+        for nm in outs:
+            lets.append("let %s := nth %d%%nat res__ 0 in" % (gname(nm), pos))
+            pos += 1
+        if buf is not None:
+            lets.append("let %s := skipn %d%%nat res__ in" % (buf[0], pos))
+            buf[1] = True
+        body = nxt()
+        return self.eguarded(g, 'ECall "%s" [%s] %s (fun res__ %s =>\n%s%s)'
+                             % (name, "; ".join(ts), sv, sv, "".join(x + "\n" for x in lets), body))
+
+    # -- statements ----------------------------------------------------------------
+    def snapshot(self):
+        return set(self.locals), {k: list(v) for k, v in self.arrays.items()}
+
+    def restore(self, snap):
+        self.locals = set(snap[0])
+        for k, v in snap[1].items():
+            self.arrays[k][0], self.arrays[k][1] = v
+
+    def pure_branch(self, s, assigned):
+        """straight-line assignments without guards or calls -> list of `let` lines, or None"""
+        if s is None:
+            return []
+        k = s.get("kind")
+        if k == "CompoundStmt":
+            out = []
+            for c in inner(s):
+                r = self.pure_branch(c, assigned)
+                if r is None:
+                    return None
+                out += r
+            return out
+        if k == "NullStmt":
+            return []
+        if k == "CallExpr" and self.callee(s) in EFF_NOOPS:
+            return []
+        if k == "BinaryOperator" and s.get("opcode") == "=":
+            lhs, rhs = inner(s)
+            try:
+                if self.calls_in(rhs):
+                    return None
+                g, val = self.expr(rhs)
+            except Untranslatable:
+                return None
+            if g:
+                return None
+            ll = strip_casts(lhs, ("ParenExpr",))
+            if ll.get("kind") == "DeclRefExpr" and ll["referencedDecl"]["name"] in self.locals \
+                    and ll["referencedDecl"]["name"] not in self.arrays:
+                v = gname(ll["referencedDecl"]["name"])
+                if v not in assigned:
+                    assigned.append(v)
+                return ["let %s := %s in" % (v, val)]
+            try:
+                b, key = self.lvalue_key(ll)
+            except Untranslatable:
+                return None
+            if b != self.sock or self.ty(ll) is None:
+                return None
+            v = gname(b)
+            if v not in assigned:
+                assigned.append(v)
+            return ['let %s := sset "%s" %s %s in' % (v, key, val, v)]
+        return None
+
+    def leave(self, code):
+        return "ERet (%d) %s" % (code, gname(self.sock))
+
+    def stmts(self, lst, k):
+        if not lst:
+            return k()
+        s, rest = lst[0], lst[1:]
+        kind = s.get("kind")
+        nxt = lambda: self.stmts(rest, k)  # noqa: E731
+        sv = gname(self.sock)
+        if kind == "CompoundStmt":
+            return self.stmts(inner(s) + rest, k)
+        if kind == "NullStmt":
+            return nxt()
+        if kind == "DeclStmt":
+            decls = inner(s)
+
+            def chain(i):
+                if i == len(decls):
+                    return nxt()
+                d = decls[i]
+                if d.get("kind") != "VarDecl":
+                    raise Untranslatable("decl " + str(d.get("kind")))
+                q = d["type"].get("desugaredQualType", d["type"]["qualType"])
+                ins = inner(d)
+                if re.fullmatch(r"(?:unsigned |signed )?char\s*\[\w+\]", q) and not ins:
+                    obj = "m_" + d["name"]
+                    self.locals.add(d["name"])
+                    self.arrays[d["name"]] = [obj, False]
+                    return "let %s : list Z := [] in\n%s" % (obj, chain(i + 1))
+                if int_type(q) is None and int_type(d["type"]["qualType"]) is None:
+                    raise Untranslatable("local of type " + q)
+                if not ins:
+                    self.locals.add(d["name"])
+                    return "let %s := 0 in\n%s" % (gname(d["name"]), chain(i + 1))
+
+                def build():
+                    g, t = self.expr(ins[0])
+                    self.locals.add(d["name"])
+                    return self.eguarded(g, "let %s := %s in\n%s" % (gname(d["name"]), t, chain(i + 1)))
+                return self.with_calls([ins[0]], build)
+            return chain(0)
+        if kind == "ReturnStmt":
+            ins = inner(s)
+            if self.mode == "iter":
+                if ins and self.calls_in(ins[0]):
+                    raise Untranslatable("return of a call inside the loop")
+                return self.leave(2)
+            if not ins:
+                return self.leave(0)
+            e = ins[0]
+            if is_null_ptr(e):
+                return self.leave(0)
+            if self.mode == "prologue":
+                raise Untranslatable("return of a value before the loop")
+
+            def build():
+                g, t = self.expr(e)
+                return self.eguarded(g, "ERet %s %s" % (t, sv))
+            return self.with_calls([e], build)
+        if kind == "IfStmt":
+            ins = inner(s)
+            c, th = ins[0], ins[1]
+            el = ins[2] if len(ins) > 2 else None
+
+            def build():
+                g, tc = self.cond(c)
+                assigned = []
+                a = self.pure_branch(th, assigned)
+                b = self.pure_branch(el, assigned) if a is not None else None
+                if a is not None and b is not None:
+                    if not assigned:
+                        return self.eguarded(g, nxt())
+                    tup = assigned[0] if len(assigned) == 1 else "(" + ", ".join(assigned) + ")"
+                    pat = assigned[0] if len(assigned) == 1 else "'(" + ", ".join(assigned) + ")"
+                    return self.eguarded(g, "let %s := (if %s\nthen (%s%s)\nelse (%s%s)) in\n%s"
+                                         % (pat, tc, "".join(x + " " for x in a), tup, "".join(x + " " for x in b), tup, nxt()))
+                snap = self.snapshot()
+                ta = self.stmts([th], nxt)
+                self.restore(snap)
+                tb = self.stmts([el], nxt) if el is not None else nxt()
+                self.restore(snap)
+                return self.eguarded(g, "if %s\nthen (%s)\nelse (%s)" % (tc, ta, tb))
+            return self.with_calls([c], build)
+        if kind == "WhileStmt":
+            raise Untranslatable("loop (only the loop of a \"loop\" entry is translated, one iteration at a time)")
+        if kind in ("ForStmt", "DoStmt", "SwitchStmt", "GotoStmt", "LabelStmt"):
+            raise Untranslatable("statement " + kind)
+        if kind == "BreakStmt":
+            if self.mode == "iter":
+                return self.leave(1)
+            raise Untranslatable("break outside the loop")
+        if kind == "ContinueStmt":
+            if self.mode == "iter":
+                return self.leave(0)
+            raise Untranslatable("continue outside the loop")
+        if self.is_assert(s):
+            c = self.assert_cond(s)
+            if c is None or self.calls_in(c):
+                raise Untranslatable("assert shape")
+            g, tc = self.cond(c)
+            return self.eguarded(g + [tc], nxt())
+        if kind == "CallExpr":
+            if self.callee(s) in EFF_NOOPS:
+                return nxt()
+            self.calls_in(s)            # shape check of the arguments
+            return self.emit_call(s, None, nxt)
+        if kind in ("ImplicitCastExpr", "CStyleCastExpr") and s.get("castKind") == "ToVoid":
+            return self.stmts([inner(s)[0]] + rest, k)
+        if kind in ("BinaryOperator", "CompoundAssignOperator") and s.get("opcode", "").endswith("=") \
+                and s["opcode"] not in ("==", "!=", "<=", ">="):
+            op = s["opcode"]
+            lhs, rhs = inner(s)
+            ll = strip_casts(lhs, ("ParenExpr",))
+
+            def build():
+                if op == "=":
+                    g, val = self.expr(rhs)
+                else:
+                    fake = {"kind": "BinaryOperator", "opcode": op[:-1], "type": s.get("computeResultType", s.get("type")),
+                            "inner": [self.rvalue_of(lhs), rhs]}
+                    g, val = self.expr(fake)
+                    val = self.wrap(s, val)
+                if ll.get("kind") == "DeclRefExpr":
+                    nm = ll["referencedDecl"]["name"]
+                    if nm not in self.locals or nm in self.arrays or nm == self.sock:
+                        raise Untranslatable("assignment to " + nm)
+                    return self.eguarded(g, "let %s := %s in\n%s" % (gname(nm), val, nxt()))
+                b, key = self.lvalue_key(ll)
+                if b != self.sock:
+                    raise Untranslatable("assignment through " + b)
+                if self.ty(ll) is None:
+                    raise Untranslatable("assignment to the non-integer field " + key)
+                return self.eguarded(g, 'let %s := sset "%s" %s %s in\n%s' % (sv, key, val, sv, nxt()))
+            if self.calls_in(lhs):
+                raise Untranslatable("call on the left of an assignment")
+            return self.with_calls([rhs], build)
+        if kind == "UnaryOperator" and s.get("opcode") in ("++", "--"):
+            tgt = strip_casts(inner(s)[0], ("ParenExpr",))
+            if tgt.get("kind") == "DeclRefExpr" and tgt["referencedDecl"]["name"] in self.locals:
+                v = gname(tgt["referencedDecl"]["name"])
+                t = self.ty(tgt)
+                raw = "(%s %s 1)" % (v, "+" if s["opcode"] == "++" else "-")
+                if t and t[1]:
+                    return "eguard (in_s %d %s) (let %s := %s in\n%s)" % (t[0], raw, v, raw, nxt())
+                return "let %s := %s in\n%s" % (v, self.wrap(tgt, raw), nxt())
+        raise Untranslatable("statement " + str(kind))
+
+    # -- whole function / loop ---------------------------------------------------------
+    def setup(self):
+        fn = self.fn
+        params = [c for c in inner(fn) if c.get("kind") == "ParmVarDecl"]
+        if len(params) != 1 or not re.fullmatch(r"struct rtr_socket \*", params[0]["type"]["qualType"].replace("const ", "").strip()):
+            raise Untranslatable("effect mode wants exactly one parameter, the socket")
+        self.sock = params[0]["name"]
+        self.locals.add(self.sock)
+        self.ptr_params = [self.sock]
+        self.result_kind = "eff"
+        return [c for c in inner(fn) if c.get("kind") == "CompoundStmt"][0]
+
+    def function(self, mutates=False):
+        body = self.setup()
+        rq = self.fn["type"]["qualType"].split("(")[0].strip()
+        if rq == "void":
+            fall = lambda: self.leave(0)  # noqa: E731
+        else:
+            fall = lambda: "EUndef (* falls off the end *)"  # noqa: E731
+        term = self.stmts([body], fall)
+        return "Definition %s_gen (%s : store) : eff :=\n%s.\n" % (self.fn["name"], gname(self.sock), term), \
+               ("void" if rq == "void" else "Z")
+
+    def loop(self):
+        """-> texts of <f>__prologue_gen and <f>__iter_gen for a function of the shape  <prologue>; while (1) { body }"""
+        body = self.setup()
+        top = inner(body)
+        wi = [i for i, c in enumerate(top) if c.get("kind") == "WhileStmt"]
+        if len(wi) != 1:
+            raise Untranslatable("expected exactly one top-level while loop")
+        wh = top[wi[0]]
+        wc, wb = inner(wh)[0], inner(wh)[1]
+        try:
+            always = const_value(wc) != 0
+        except (ValueError, KeyError, IndexError):
+            always = False
+        if not always:
+            raise Untranslatable("the loop condition is not a non-zero constant")
+        self.mode = "prologue"
+        pro = self.stmts(top[:wi[0]], lambda: self.leave(1))
+        plocals = set(self.locals) - {self.sock}
+
+        def uses(n):
+            if n.get("kind") == "CallExpr" and self.callee(n) in EFF_NOOPS:
+                return set()
+            r = set()
+            if n.get("kind") == "DeclRefExpr" and n.get("referencedDecl", {}).get("name") in plocals:
+                r.add(n["referencedDecl"]["name"])
+            for ch in inner(n):
+                r |= uses(ch)
+            return r
+        used = uses(wb)
+        if used:
+            raise Untranslatable("the loop body uses the locals %s of the prologue" % ", ".join(sorted(used)))
+        self.mode = "iter"
+        self.locals = {self.sock}
+        self.arrays = {}
+        it = self.stmts([wb], lambda: self.leave(0))
+        nm, sv = self.fn["name"], gname(self.sock)
+        return ("Definition %s__prologue_gen (%s : store) : eff :=\n%s.\n" % (nm, sv, pro),
+                "Definition %s__iter_gen (%s : store) : eff :=\n%s.\n" % (nm, sv, it))
+
+
+def generate_fsm():
+    """text of Gen/GeneratedFsm.v: effect trees of the RTR client state machine"""
+    out, problems = [], []
+    w = out.append
+    w("(* GENERATED by tools/c2v.py (effect mode) from the repository sources - do not edit. *)")
+    w("From RtrV Require Import Base.CSem Base.Mem Base.Eff Gen.Generated Gen.GeneratedMem.")
+    w("Local Open Scope string_scope.\nLocal Open Scope Z_scope.\n")
+    if "known" not in _MEM_CTX:
+        generate_mem()
+    mem_known = dict(_MEM_CTX.get("known", {}))
+    enums_all = dict(_MEM_CTX.get("enums", {}))
+    sizes = _MEM_CTX.get("sizes", {})
+    eff_known = {}
+    for cfile, fname, what in FSM_LEAFS:
+        names = [fname] if what == "fn" else [fname + "__prologue", fname + "__iter"]
+        try:
+            fn = find_def(cfile, fname)
+            if fn is None:
+                raise Untranslatable("definition not found")
+            tr = TrEff(fn, eff_known, mem_known, enums_all, sizes)
+            if what == "fn":
+                text, rk = tr.function()
+                eff_known[fname] = rk
+                w("(* %s : %s *)" % (cfile, fname))
+                w(text)
+            else:
+                pro, it = tr.loop()
+                w("(* %s : %s - the statements before its `while (1)` loop; ERet 0 = returned, ERet 1 = enters the loop *)" % (cfile, fname))
+                w(pro)
+                w("(* %s : %s - ONE iteration of its `while (1)` loop; ERet 0 = go round again *)" % (cfile, fname))
+                w(it)
+        except Exception as e:  # noqa: BLE001
+            problems.append("function %s: %s" % (fname, e))
+            for nm in names:
+                w("(* %s could not be translated: %s *)" % (nm, str(e).replace("*)", "* )")))
+                w("Definition %s_untranslated := tt.\n" % nm)
+    w("Definition fsm_translator_problems : list string := [%s]." % "; ".join(coq_string(p[:200]) for p in problems))
+    return "\n".join(out) + "\n", problems
+
+
+# ---------------------------------------------------------------------------
 # lock skeletons
 # ---------------------------------------------------------------------------
 # For every non-static function of trie-pfx.c / ht-spkitable.c the translator emits a small
@@ -2625,6 +3203,14 @@ def write_if_changed(path, text, label):
 
 
 def main():
+    # --only-fsm [path]: write only Gen/GeneratedFsm.v (to `path` if given)
+    if "--only-fsm" in sys.argv[1:]:
+        rest = [a for a in sys.argv[1:] if a != "--only-fsm"]
+        ftext, fproblems = generate_fsm()
+        write_if_changed(rest[0] if rest else FSM_OUT, ftext, "GeneratedFsm.v")
+        for p in fproblems:
+            print("c2v: problem:", p)
+        return 0
     # --only-memw [path]: write only Gen/GeneratedMemW.v (to `path` if given)
     if "--only-memw" in sys.argv[1:]:
         rest = [a for a in sys.argv[1:] if a != "--only-memw"]
@@ -2651,7 +3237,9 @@ def main():
     write_if_changed(IP_OUT, itext, "GeneratedIp.v")
     wtext, wproblems = generate_memw()
     write_if_changed(MEMW_OUT, wtext, "GeneratedMemW.v")
-    mproblems = mproblems + iproblems + wproblems
+    ftext, fproblems = generate_fsm()
+    write_if_changed(FSM_OUT, ftext, "GeneratedFsm.v")
+    mproblems = mproblems + iproblems + wproblems + fproblems
     for p in problems + sproblems + mproblems:
         print("c2v: problem:", p)
     return 0
